@@ -292,7 +292,7 @@ func (s sortedSeqContents) Less(i, j int) bool {
 			continue // not a fieldNameIndex
 		}
 		// locate the index of the sortField field
-		if s.Content[i].Content[a].Value == s.sortField {
+		if s.Content[i].Content[a].Value == s.sortField && a+1 < len(s.Content[i].Content) {
 			// a is the yaml node for the field key, a+1 is the node for the field value
 			iValue = s.Content[i].Content[a+1].Value
 		}
@@ -303,7 +303,7 @@ func (s sortedSeqContents) Less(i, j int) bool {
 		}
 
 		// locate the index of the sortField field
-		if s.Content[j].Content[a].Value == s.sortField {
+		if s.Content[j].Content[a].Value == s.sortField && a+1 < len(s.Content[j].Content) {
 			// a is the yaml node for the field key, a+1 is the node for the field value
 			jValue = s.Content[j].Content[a+1].Value
 		}
